@@ -300,3 +300,55 @@ def rand_edit(rnd, spec, mix=None):
             return e
     e = num_edit(rnd, spec); e["kind"] = "num"
     return e
+
+
+# ---- edits that are expected to make recomputation fail (C15, C02, C14, C05) ---------------------------------------------
+def risky_edit(rnd, spec, objs=None):
+    """an edit built to be refused during *recomputation* (real triggers for every raising update function), or a
+    preparation edit (fixing an instance count at exactly the current need) that makes later edits fail late in the chain"""
+    E = env.load()
+    O = spec["objects"]
+    servers = names_of(spec, "Server"); storages = names_of(spec, "Storage"); jobs = names_of(spec, "Job"); ups = names_of(spec, "UsagePattern")
+    choices = []
+    if servers:
+        choices += ["base_ram", "base_compute", "util", "ram_small"]
+        if objs is not None:
+            choices += ["fix_server", "fix_server"]
+    if storages and objs is not None:
+        choices += ["fix_storage"]
+    if jobs:
+        choices += ["delete_data"]
+    if ups:
+        choices += ["traffic_up", "traffic_up"]
+    if not choices:
+        return None
+    k = rnd.choice(choices)
+    if k == "base_ram":
+        s = rnd.choice(servers); ram = O[s]["params"]["ram"]
+        return {"op": "set", "obj": s, "attr": "base_ram_consumption", "value": ["q", ram[1] * 2.37, ram[2]], "kind": "risky_" + k}
+    if k == "base_compute":
+        s = rnd.choice(servers); c = O[s]["params"]["compute"]
+        return {"op": "set", "obj": s, "attr": "base_compute_consumption", "value": ["q", c[1] * 2.37, c[2]], "kind": "risky_" + k}
+    if k == "util":
+        s = rnd.choice(servers)
+        return {"op": "set", "obj": s, "attr": "server_utilization_rate", "value": ["q", 1e-6, "dimensionless"], "kind": "risky_" + k}
+    if k == "ram_small":
+        s = rnd.choice(servers)
+        return {"op": "set", "obj": s, "attr": "ram", "value": ["q", 1e-4, "GB"], "kind": "risky_" + k}
+    if k in ("fix_server", "fix_storage"):
+        n = rnd.choice(servers if k == "fix_server" else storages)
+        if k == "fix_server" and O[n]["params"]["server_type"][1] != "on-premise":
+            return {"op": "set", "obj": n, "attr": "server_type", "value": ["s", "on-premise"], "kind": "risky_to_on_premise"}
+        live = objs[n].nb_of_instances
+        if isinstance(live, E.EmptyExplainableObject):
+            return None
+        import numpy as np
+        mx = float(np.max(np.asarray(live.value["value"].values._data, dtype=float)))
+        return {"op": "set", "obj": n, "attr": "fixed_nb_of_instances", "value": ["q", float(np.ceil(mx)) + rnd.choice([0, 0, 1]), "dimensionless"],
+                "kind": "risky_" + k}
+    if k == "delete_data":
+        j = rnd.choice(jobs)
+        return {"op": "set", "obj": j, "attr": "data_stored", "value": ["q", -1e9, "TB"], "kind": "risky_" + k}
+    if k == "traffic_up":
+        up = rnd.choice(ups); h = O[up]["params"]["hourly_usage_journey_starts"]
+        return {"op": "set", "obj": up, "attr": "hourly_usage_journey_starts", "value": ["h", [x * 1e6 + 1 for x in h[1]], h[2], h[3]], "kind": "risky_" + k}
